@@ -492,3 +492,9 @@ package goldilocks
 //@   ensures res == gl_sq_iter0(1753635133440165772, 32 - nLog)
 //@   loop 0 invariant 0 <= i && i <= 32 - nLog && 0 < res && res < P && res == gl_sq_iter0(1753635133440165772, i)
 //@   loop 0 use gl_square_nonzero(res)
+
+//@ func Uint64ArrayToVariableArray(input []uint64) (res []Variable)
+//@   props C19 C16
+//@   plain
+//@   ensures len(res) == len(input) && forall(k, 0, len(input), res[k].Limb == input[k])
+//@   loop 0 invariant 0 <= i && i <= len(input) && len(output) == i && forall(k, 0, i, output[k].Limb == input[k])
